@@ -229,7 +229,19 @@ func (s *LogStore) triggerVerify(r VerificationReport) {
 
 // DeleteRange deletes a range of log entries. The range is inclusive.
 func (s *LogStore) DeleteRange(min uint64, max uint64) error {
-	return s.s.DeleteRange(min, max)
+	if err := s.s.DeleteRange(min, max); err != nil {
+		return err
+	}
+	// If any of the logs covered by our running write checksum were removed
+	// (e.g. a conflicting suffix truncated by a new leader before different
+	// entries are appended at the same indexes) the sum no longer describes what
+	// is in the log. Start over from the next append, otherwise the next
+	// checkpoint would report in-flight corruption that never happened.
+	if start := atomic.LoadUint64(&s.sumStartIdx); start != 0 && max >= start {
+		atomic.StoreUint64(&s.checksum, 0)
+		atomic.StoreUint64(&s.sumStartIdx, 0)
+	}
+	return nil
 }
 
 // Close cleans up the background verification routine and calls Close on the
